@@ -10,7 +10,7 @@ import os
 import re
 from concurrent.futures import ThreadPoolExecutor
 
-from vlib import Infra, build_drivers, run_driver, tlc, write_evidence
+from vlib import Infra, apalache, build_drivers, run_driver, tlc, write_evidence
 
 MC = """CONSTANTS
   Static = %(static)s
@@ -70,6 +70,20 @@ def run(ctx):
             raise Infra("TimeoutMgr.tla violates %s" % r["violated"])
         states += r["distinct"]
         trans += r["generated"]
+    # beyond bounded histories: the inductive invariant of ApaTimeoutMgr.tla
+    # (types, clean-sample bookkeeping, FloorOK, StaticOK) and the action
+    # properties on the symbolic step out of it, for every history, clock
+    # value and inter-event time (Apalache, SMT); a wrong rate claim must be
+    # refuted
+    for init, inv, length, want in (("Init", "IndInv", 0, "ok"),
+                                    ("IndInit", "IndInv", 1, "ok"),
+                                    ("IndInit", "ActionProps", 1, "ok"),
+                                    ("IndInit", "WrongRateA", 1, "violated")):
+        got = apalache(ctx, "ApaTimeoutMgr", inv, "tm_%s_%s" % (init, inv),
+                       init=init, length=length, cinit="CInit")
+        if got != want:
+            raise Infra("ApaTimeoutMgr: %s from %s is %s, expected %s" %
+                        (inv, init, got, want))
     binary = build_drivers(ctx)
     out = ctx.sub("c20")
     rc, o = run_driver(ctx, binary, "TestC20Histories", out)
@@ -127,8 +141,10 @@ def run(ctx):
         "samples": [json.loads(x) for x in
                     open(res[0][3]).read().splitlines()[:6]],
         "configs": sorted(groups),
+        "inductive_invariant_unbounded_histories_apalache": True,
         "exhaustive": False,
-        "checker_cmd": "tlc MC_TimeoutMgr.tla; tlc Trace_TimeoutMgr.tla",
+        "checker_cmd": "tlc MC_TimeoutMgr.tla; apalache-mc check ApaTimeoutMgr.tla "
+                       "(IndInv, ActionProps); tlc Trace_TimeoutMgr.tla",
     }, ["milliseconds; the float32 boost arithmetic is compared with a "
         "tolerance of 1 ms",
         "model checking bounded to histories of 6-7 events over boundary "
